@@ -114,7 +114,7 @@ size_t ParseScalableInteger(const void *buff_ptr, size_t buff_size, uint64_t &ou
     bool is_completed = false;
 
     //! 从前到后读取替代数值
-    for (size_t i = 0; i < buff_size && i <= 10; ++i) {
+    for (size_t i = 0; i < buff_size && i < 10; ++i) {   //! 最多10个字节
         uint8_t value = byte_ptr[i];
 
         read_value <<= 7;
